@@ -838,6 +838,11 @@ def distinct_lines_of_first_time_call(all_occurrences=False, with_factory=False)
     out += [[f, l, seen[(f, l)]] for f, l in order if seen[(f, l)] > 1]
     if all_occurrences:
         out += [[f, l, k] for f, l in order for k in range(2, min(seen[(f, l)], 12))]
+    else:
+        # the code of objects that live as long as a backend or the process (optimiser patterns, caches, the public layer): every
+        # execution of their lines, not only the first and the last
+        hot = ("tracer/optimizer/", "util/lru_cache.py", "frontend/")
+        out += [[f, l, k] for f, l in order if any(h in f for h in hot) for k in range(2, min(seen[(f, l)], 12))]
     return out
 
 
